@@ -811,7 +811,7 @@ def calibrate(ctx) -> None:
 # ------------------------------------------------------------------ parts
 def parts(ctx):
     return [
-        HypPart("programs", G.valid_program(), make_run_valid(ctx.work), {"quick": 2400, "thorough": 150000}),
-        HypPart("expressions", G.expression_program(), make_run_valid(ctx.work), {"quick": 1200, "thorough": 100000}),
-        HypPart("unsupported", G.unsupported_program(), make_run_unsupported(ctx.work), {"quick": 480, "thorough": 30000}),
+        HypPart("programs", G.valid_program(), make_run_valid(ctx.work), {"quick": 2000, "thorough": 150000}),
+        HypPart("expressions", G.expression_program(), make_run_valid(ctx.work), {"quick": 1000, "thorough": 100000}),
+        HypPart("unsupported", G.unsupported_program(), make_run_unsupported(ctx.work), {"quick": 400, "thorough": 30000}),
     ]
